@@ -12,7 +12,7 @@ dirs = sys.argv[1:] or sorted(glob.glob("/tmp/mut/C*/[ab]"))
 out = open("/tmp/mut/eval.jsonl", "a")
 for d in dirs:
     prop = d.split("/")[-2]
-    sh("git checkout -q --detach $(git -C /repo rev-parse HEAD) && git checkout -- . && git clean -fdq", cwd=WT)
+    sh("git reset -q --hard; git checkout -q --detach $(git -C /repo rev-parse HEAD) && git reset -q --hard && git clean -fdq", cwd=WT)
     rc, o = sh("git apply --3way %s/patch.diff" % d, cwd=WT)
     rec = {"dir": d, "prop": prop, "applies": rc == 0, "checks": {}}
     if rc != 0:
@@ -29,4 +29,4 @@ for d in dirs:
     rec["caught_by"] = [p for p, v in rec["checks"].items() if v["rc"] == 1]
     out.write(json.dumps(rec) + "\n"); out.flush()
     print(d, "caught_by", rec["caught_by"], {p: v["rc"] for p, v in rec["checks"].items()}, flush=True)
-    sh("git checkout -- . && git clean -fdq", cwd=WT)
+    sh("git reset -q --hard && git clean -fdq", cwd=WT)
